@@ -298,7 +298,7 @@ func judgeUpload(s upScript, r upResult, mode string) (labels []string, nt bool,
 		if why != "" {
 			return nil, fmt.Errorf("reply %d %s is not a well-formed frame: %s", ri, hx(r.replies[ri]), why)
 		}
-		if !bytes.Equal(f.PhoneBCD, phoneFor(s.V2019)) || f.Version2019 != s.V2019 {
+		if !bytes.Equal(f.PhoneBCD, s.phoneBCD()) || f.Version2019 != s.V2019 {
 			return nil, fmt.Errorf("reply %d is addressed to phone %x version2019=%v", ri, f.PhoneBCD, f.Version2019)
 		}
 		if int(f.Serial) != ri {
@@ -488,19 +488,56 @@ func judgeUpload(s upScript, r upResult, mode string) (labels []string, nt bool,
 
 type c15Case struct {
 	S upScript `json:"script"`
+	// Later: another terminal (other phone, other header layout) uploads on a second connection to the same server
+	// afterwards; its session is judged by the same model (connections of one server share nothing of a session)
+	Later *upScript `json:"later_session_of_another_terminal,omitempty"`
+}
+
+func genLaterSession(t *rapid.T, first upScript) *upScript {
+	s := upScript{Dialect: first.Dialect, V2019: !first.V2019, Phone: "13900139000", TerminalID: genIDBytes(t, "tid2", ref.DialectIDLen[first.Dialect]), AlarmID: genIDBytes(t, "aid2", 32), CutMode: "per_item"}
+	if rapid.Bool().Draw(t, "same_layout") {
+		s.V2019 = first.V2019
+	}
+	size := rapid.IntRange(1, 300).Draw(t, "size2")
+	s.Files = []upFile{{Name: genName(t, "name2", 20, map[string]bool{}), Size: size, Seed: 99}}
+	half := size / 2
+	s.Items = []upItem{{Kind: "1210"}, {Kind: "1211"}}
+	if half > 0 && rapid.Bool().Draw(t, "gap2") {
+		s.Items = append(s.Items, upItem{Kind: "chunk", Off: half, Len: size - half}, upItem{Kind: "1212"}, upItem{Kind: "chunk", Off: 0, Len: half}, upItem{Kind: "1212"})
+	} else {
+		s.Items = append(s.Items, upItem{Kind: "chunk", Off: 0, Len: size}, upItem{Kind: "1212"})
+	}
+	return &s
 }
 
 func checkUpload(mode string) func(c c15Case, _ *kit.Collector) kit.Result {
 	return func(c c15Case, _ *kit.Collector) kit.Result {
 		res := kit.Result{}
+		if c.Later != nil {
+			sharedSrv = newSharedServer(c.S.Dialect)
+			defer func() { sharedSrv = nil }()
+		}
 		r := runUpload(c.S)
 		res.Labels, res.NT, res.Err = judgeUpload(c.S, r, mode)
+		if res.Err == nil && c.Later != nil {
+			r2 := runUpload(*c.Later)
+			if _, _, err := judgeUpload(*c.Later, r2, mode); err != nil {
+				res.Err = kit.Fail("second connection to the same server (terminal %s, 2019 layout %v) after the first session: %v", c.Later.Phone, c.Later.V2019, err)
+			}
+			res.Labels = append(res.Labels, "later_session_on_the_same_server")
+		}
 		return res
 	}
 }
 
 func TestC15(t *testing.T) {
-	kit.Run(t, kit.Prop[c15Case]{ID: "C15", Part: "TestC15", Gen: func(t *rapid.T) c15Case { return c15Case{S: genUpload(t, rapid.Bool().Draw(t, "gaps"))} }, Check: checkUpload("C15")})
+	kit.Run(t, kit.Prop[c15Case]{ID: "C15", Part: "TestC15", Gen: func(t *rapid.T) c15Case {
+		c := c15Case{S: genUpload(t, rapid.Bool().Draw(t, "gaps"))}
+		if rapid.IntRange(0, 2).Draw(t, "later") == 0 {
+			c.Later = genLaterSession(t, c.S)
+		}
+		return c
+	}, Check: checkUpload("C15")})
 }
 
 func TestC16Driven(t *testing.T) {
